@@ -1,7 +1,7 @@
 (* Correspondence obligations for C07: the model's Equals answers, hash keys, Hash.Get results and
    Unique results on the values the implementation ran (harness/cmd/c07). *)
 From Coq Require Import ZArith NArith Bool List.
-From PcoreV Require Import Model.Base Model.Keys Model.KeysIndex Model.KeysCache Model.KeysNames.
+From PcoreV Require Import Model.Base Model.Keys Model.KeysIndex Model.KeysCache Model.KeysNames Model.KeysUri.
 Import ListNotations.
 
 (* the positions j with x.Equals(pool[j]) *)
@@ -139,3 +139,19 @@ Definition c07_name_check (c : name_case) : bool :=
       end
   end.
 Definition c07_name_mismatches (cs : list name_case) : list N := failing c07_name_check cs.
+
+(* ------------------------------------------------------------------------------------------ *)
+(* URI types (Model/KeysUri.v).
+   A case: the parameters of two URI types as the harness reads them from what it built the types from (nothing;
+   the fields of the url.URL that net/url parses from the text; the entries of the Hash), the observed a.Equals(b)
+   and b.Equals(a), the observed px.ToKey of both. *)
+Definition uri_case : Type := uparams * uparams * bool * bool * list N * list N.
+
+Definition c07_uri_check (c : uri_case) : bool :=
+  match c with
+  | (a, b, eab, eba, ka, kb) =>
+      uri_wf a && uri_wf b
+      && Bool.eqb (uri_equals a b) eab && Bool.eqb (uri_equals b a) eba
+      && str_eqb (uri_key a) ka && str_eqb (uri_key b) kb
+  end.
+Definition c07_uri_mismatches (cs : list uri_case) : list N := failing c07_uri_check cs.
